@@ -65,7 +65,7 @@ def _table(cols, rows):
 
 
 def _witnesses():
-    d = _table(["g", "x", "y"], [[1, 1, 10], [1, 2, 20], [2, 3, 30], [2, 4, 40]])
+    d = _table(["g", "x", "y"], [[1, 1, 30], [1, 2, 20], [1, 3, 10], [2, 3, 30], [2, 4, 40]])
 
     def case(steps, name=None):
         return {"tables": {"d": d}, "pipe": {"table": "d", "steps": steps}, "_always": True, "_name": name}
@@ -88,6 +88,13 @@ def _witnesses():
         case([{"call": "project", "ops": [["s", "x.sum()"]], "group_by": ["g"]}, ext([("t", "s + 1")]),
               {"call": "rename_columns", "map": [["gg", "g"]]}], name="project_extend_rename"),
         case([ext([("a", "x")]), ext([("b", "a")]), ext([("b", "x")])], name="assoc_shape"),
+        # consecutive ordered windows composed across the cut: merged only for the identical window specification
+        case([ext([("r1", "_row_number()")], partition_by=["g"], order_by=["x", "y"]),
+              ext([("r2", "_row_number()")], partition_by=["g"], order_by=["y", "x"])], name="window_order_permuted"),
+        case([ext([("c1", "x.cumsum()")], partition_by=["g"], order_by=["x", "y"], reverse=["y"]),
+              ext([("c2", "x.cumsum()")], partition_by=["g"], order_by=["x", "y"], reverse=["x"])], name="window_reverse_differs"),
+        # both extends assign `a`; the second also reads `b`, which the first produced (and which exists in the input)
+        case([ext([("a", "x * 2"), ("y", "x + 1")]), ext([("a", "x * 3"), ("c", "y + 1")])], name="merge_reads_product"),
     ]
 
 
